@@ -36,7 +36,7 @@ RULE = ("keys: every (section, key) of the generated table, online_filter / "
         "of ndim 0-2) plus random ones; routes: assignment/update/constructor,"
         " configuration file, store_metadata+parse_config, re-assignment. "
         "Quick tier: for the assignment route the full list of values for "
-        "one key of every (section, converter) class and 45+8 sampled values "
+        "one key of every (section, converter) class and 30+6 sampled values "
         "for every other key, random samples of the product for the other "
         "routes; thorough tier: the full product. A case is "
         "non-trivial when the key is valid and the value is neither '' nor "
@@ -548,7 +548,12 @@ def impl_route1(case, scratch, idx):
     val = text.strip().strip("' ").strip('" ').strip()
     if val == text and key == lk and section_known(sec) and val:
         from dclab import definitions as dfn
-        if dfn.config_key_exists(sec, lk):
+        try:
+            known = dfn.config_key_exists(sec, lk)
+        except Exception as e:
+            known = False
+            fails.append(("reject", "config_key_exists raises %r" % (e,)))
+        if known:
             o = _assign(sec, key, val, "item")
             if not obs_equal(o, obs):
                 fails.append(("routes", "file gives %s, assignment of the "
@@ -921,9 +926,9 @@ def make_cases(run):
                                 "__name__", "?"))
         full = run.thorough or kc not in seen_cls
         seen_cls.add(kc)
-        for v in (fixed if full else rng.sample(fixed, 45)):
+        for v in (fixed if full else rng.sample(fixed, 30)):
             cases.append(dict(route=0, sec=sec, key=key, val=v, cls=cls))
-        for v in (rand_vals if run.thorough else rng.sample(rand_vals, 8)):
+        for v in (rand_vals if run.thorough else rng.sample(rand_vals, 6)):
             cases.append(dict(route=0, sec=sec, key=key, val=v, cls=cls))
     # route 1 (file): all keys x all str values (thorough) / a sample
     strs = [v for v in fixed + rand_vals if v[0] == "str"
@@ -937,11 +942,13 @@ def make_cases(run):
     r3 = [(s, k, c, v) for (s, k, c) in keys for v in fixed + rand_vals
           if c != "bad"]
     if not run.thorough:
-        r1 = rng.sample(r1, min(len(r1), 1800))
-        r2 = rng.sample(r2, min(len(r2), 1500))
-        r3 = rng.sample(r3, min(len(r3), 1500))
+        r1 = rng.sample(r1, min(len(r1), 1200))
+        r2 = rng.sample(r2, min(len(r2), 1000))
+        r3 = rng.sample(r3, min(len(r3), 800))
     else:
+        r1 = rng.sample(r1, min(len(r1), 12000))
         r2 = rng.sample(r2, min(len(r2), 12000))
+        r3 = rng.sample(r3, min(len(r3), 12000))
     for route, lst in ((1, r1), (2, r2), (3, r3)):
         for s, k, c, v in lst:
             cases.append(dict(route=route, sec=s, key=k, val=v, cls=c))
@@ -951,32 +958,37 @@ def make_cases(run):
 def run(run):
     import dclab  # noqa: F401
     cases = make_cases(run)
-    impl = []
+    impl = [None] * len(cases)
     scr = os.path.join(run.scratch, "files")
     os.makedirs(scr, exist_ok=True)
-    for idx, c in enumerate(cases):
-        try:
-            flat, fails = run_one(c, scr, idx)
-        except Exception as e:   # harness problem, not a verdict
-            flat, fails = [-2], [("harness", "crashed: %r" % (e,))]
-        impl.append(flat)
-        nontrivial = c["route"] == "conv" or (
-            c.get("cls") != "bad" and c["val"] not in (["str", ""],
-                                                       ["none"],
-                                                       ["bytes", ""]))
-        run.record_case(c, nontrivial)
-        run.count("route:%s" % c["route"])
-        run.count("value:%s" % c["val"][0])
-        if "cls" in c:
-            run.count("key:%s" % c["cls"])
-        seen = set()
-        for kind, desc in fails:
-            if kind in seen:
-                continue
-            seen.add(kind)
-            run.count("oracle-fail:%s" % kind)
-            run.oracle_failure(c, "%s: %s" % (kind, desc),
-                               classify(c, kind, desc))
+    def run_impl(order):
+        for idx, c in order:
+            try:
+                flat, fails = run_one(c, scr, idx)
+            except Exception as e:   # harness problem, not a verdict
+                flat, fails = [-2], [("harness", "crashed: %r" % (e,))]
+            impl[idx] = flat
+            nontrivial = c["route"] == "conv" or (
+                c.get("cls") != "bad" and c["val"] not in (["str", ""],
+                                                           ["none"],
+                                                           ["bytes", ""]))
+            run.record_case(c, nontrivial)
+            run.count("route:%s" % c["route"])
+            run.count("value:%s" % c["val"][0])
+            if "cls" in c:
+                run.count("key:%s" % c["cls"])
+            seen = set()
+            for kind, desc in fails:
+                if kind in seen:
+                    continue
+                seen.add(kind)
+                run.count("oracle-fail:%s" % kind)
+                run.oracle_failure(c, "%s: %s" % (kind, desc),
+                                   classify(c, kind, desc))
+    # HDF5 files are written and re-opened before any coqc subprocess is
+    # spawned (a forked child briefly shares the file locks)
+    run_impl([(i, c) for i, c in enumerate(cases) if c["route"] == 2])
+    dataset_roundtrip(run)
     # the model: keys and values are shared definitions, a case is a triple
     # of indices (keeps the generated Coq files small)
     conv_cases = [(i, c) for i, c in enumerate(cases) if c["route"] == "conv"]
@@ -1011,10 +1023,19 @@ def run(run):
               "  let (n, v) := c in let x := nth v V_ (VS SNone) in\n"
               "  [conv_case (n, x); conv_twice_case (n, x)].\n"
               % (";\n".join(klist), ";\n".join(vlist)))
-    m1 = common.coq_map(run.scratch, "c11conv", header, "conv_", r1,
-                        shard=3000)
-    m2 = common.coq_map(run.scratch, "c11cfg", header, "cfg_", r2,
-                        shard=2500)
+    # the model is evaluated in the background while the implementation runs
+    import concurrent.futures
+    pool = concurrent.futures.ThreadPoolExecutor(max_workers=2)
+    f1 = pool.submit(common.coq_map, run.scratch, "c11conv", header, "conv_",
+                     r1, 600)
+    f2 = pool.submit(common.coq_map, run.scratch, "c11cfg", header, "cfg_",
+                     r2, 1200)
+    run_impl([(i, c) for i, c in enumerate(cases) if c["route"] != 2])
+    try:
+        m1 = f1.result()
+        m2 = f2.result()
+    finally:
+        pool.shutdown(wait=True)
     unmod = 0
     for (i, c), m in list(zip(conv_cases, m1)) + list(zip(cfg_cases, m2)):
         got = impl[i]
@@ -1030,7 +1051,6 @@ def run(run):
             if mm != gg:
                 run.mismatch(c, mm, gg)
     run.extra["unmodelled_cases_skipped"] = unmod
-    dataset_roundtrip(run)
 
 
 # --------------------------------------------------------------------------
@@ -1162,7 +1182,46 @@ def dataset_roundtrip(run):
 
 # --------------------------------------------------------------------------
 def shrink(run, failure):
-    return failure
+    """Minimise the value of a failing case: drop elements of sequences,
+    shorten strings, keeping the kind of oracle failure."""
+    case = failure["case"]
+    if case.get("route") == "dataset" or "val" not in case:
+        return failure
+    kind = failure["desc"].split(":")[0]
+    scr = os.path.join(run.scratch, "shrink")
+    os.makedirs(scr, exist_ok=True)
+
+    def fails(c):
+        try:
+            for k, d in run_one(c, scr, 0)[1]:
+                if k == kind:
+                    return d
+        except Exception:
+            pass
+        return None
+    desc = fails(case)
+    if desc is None:
+        return failure
+    changed = True
+    while changed:
+        changed = False
+        v = case["val"]
+        cands = []
+        if v[0] in ("list", "tuple", "list2", "tuple2") or \
+                (v[0] in ("arr1", "arr2")):
+            seq = v[-1]
+            for i in range(len(seq)):
+                cands.append(v[:-1] + [seq[:i] + seq[i + 1:]])
+        elif v[0] in ("str", "bytes") and len(v[1]) > 1:
+            for i in range(len(v[1])):
+                cands.append([v[0], v[1][:i] + v[1][i + 1:]])
+        for cv in cands:
+            c2 = dict(case, val=cv)
+            d2 = fails(c2)
+            if d2 is not None:
+                case, desc, changed = c2, d2, True
+                break
+    return dict(case=case, desc="%s: %s" % (kind, desc), finding=None)
 
 
 def search(run, broken):
